@@ -14,6 +14,7 @@ RULE = ("cases = nested mappings (depth<=4, fan-out 0-5, keys incl. the empty st
         "Distinct by (tree shape, optional placement, separator, order class); non-trivial = depth>=2 or >=2 leaves.")
 ASSUMPTIONS = ["inner levels are non-empty (an empty inner dict has no flat representation)",
                "sibling names are unique per level; keys do not contain the chosen separator"]
+REACH_FILES = ['d42/utils/_rollout.py']
 TIERS = {"quick": dict(shards=16, cases=30000, exh_leaves=3), "thorough": dict(shards=16, cases=600000, exh_leaves=4)}
 
 SEPS = [".", "|", "::", "__", "/", " "]
